@@ -65,6 +65,10 @@ class ToolOps(StepOps):
             return ("SEQ", tuple(range(*args)))
         if last in EXC_NAMES:
             return ("exc", last)
+        if last == "object" and not node.args and not node.keywords:
+            n_obj = env.get("@objects", 0)
+            env["@objects"] = n_obj + 1
+            return ("OBJ", n_obj)  # a fresh private marker
         if last == "ScopedIter" and len(args) == 1 and self._is_iter(args[0]):
             return args[0]
         if last == "zip" and not node.keywords:
@@ -94,7 +98,7 @@ class ToolOps(StepOps):
         r = super().compare(op, left, right, env)
         if r is UNKNOWN and op in ("Is", "IsNot"):
             def ident(v):
-                return isinstance(v, tuple) and v[:1] in (("GLOBAL",), ("item",), ("FN",)) or isinstance(v, str)
+                return isinstance(v, tuple) and v[:1] in (("GLOBAL",), ("item",), ("FN",), ("OBJ",)) or isinstance(v, str)
             if ident(left) and ident(right):
                 return (left == right) if op == "Is" else (left != right)
             if (left is None) != (right is None):
@@ -468,6 +472,35 @@ AGGREGATES: List[Tuple[str, Callable[[], Any]]] = [
     ("builtins.set", lambda: _collect_cells(set)),
 ]
 
+def _zip_cells(strict: bool):
+    shapes = [(0,), (0, 1), (0, 1, 2), (0, 0)]
+    for slots in shapes:
+        ids = sorted(set(slots))
+        top = 5 if slots == (0, 0) else 3
+        for lens in _it.product(range(0, top), repeat=len(ids)):
+            lengths = dict(zip(ids, lens))
+
+            def oracle(slots=slots, lengths=lengths):
+                srcs = {k: _Src(_items(k, n)) for k, n in lengths.items()}
+                return _observe(lambda: zip(*[srcs[s] for s in slots], strict=strict), [srcs[k] for k in sorted(srcs)], [])
+            yield Cell(f"zip({', '.join('it%d' % s for s in slots)}{', strict=True' if strict else ''}) with "
+                       + ", ".join(f"len(it{k})={n}" for k, n in lengths.items()),
+                       [("SEQ", tuple(("IT", s) for s in slots))], {}, lengths, oracle)
+
+
+def _plain_iteration_cells():
+    for n in range(0, 4):
+        def oracle(n=n):
+            src = _Src(_items(0, n))
+            return _observe(lambda: iter(src), [src], [])
+        yield Cell(f"{n} items", [("IT", 0)], {}, {0: n}, oracle)
+
+
+def sync_wrapper_table(ctx, rid: str) -> None:
+    """``_aiter_sync``: the async view of a synchronous iterable yields exactly its items, one per step."""
+    _tables(ctx, rid, [("_core._aiter_sync", _plain_iteration_cells)], "asyncgen", "adapter_table_cells")
+
+
 TOOLS: List[Tuple[str, Callable[[], Any]]] = [
     ("itertools.takewhile", lambda: _pred_cells(_it.takewhile)),
     ("itertools.dropwhile", lambda: _pred_cells(_it.dropwhile)),
@@ -480,7 +513,11 @@ TOOLS: List[Tuple[str, Callable[[], Any]]] = [
     ("builtins.enumerate", _enumerate_cells),
     ("builtins.map", _map_cells),
     ("itertools.compress", _compress_cells),
+    ("builtins._zip_inner", lambda: _zip_cells(False)),
+    ("builtins._zip_inner_strict", lambda: _zip_cells(True)),
 ]
+
+STDLIB_NAME = {"builtins._zip_inner": "zip", "builtins._zip_inner_strict": "zip(strict=True)"}
 
 # documented deviations from the stdlib: (tool, predicate on the cell label) -> expected trace override
 DEVIATIONS = {
@@ -578,6 +615,7 @@ def _tables(ctx, rid: str, tools, kind: str, counter: str) -> None:
                                                      coroutines=True))
             want = _expected(short, cell)
             name = short.split(".")[-1]
+            std = STDLIB_NAME.get(short, name)
             try:
                 outs = machine.run(env)
             except AnalysisError:
@@ -586,7 +624,7 @@ def _tables(ctx, rid: str, tools, kind: str, counter: str) -> None:
                     decided += 1
                     if bad <= 2:
                         ctx.fail(rid, real, name, f"[{name}: {cell.label}] the evaluation does not reach the end of the generator: "
-                                 f"it keeps running where the stdlib {name} stops")
+                                 f"it keeps running where the stdlib {std} stops")
                 continue
             if len(outs) != 1:
                 continue
@@ -613,7 +651,7 @@ def _tables(ctx, rid: str, tools, kind: str, counter: str) -> None:
                     for label, g, w in zip(("yields", "items taken", "calls", "end", "result"), got, exp):
                         if g != w:
                             parts.append(f"{label}: evaluated {_show(g)}, stdlib {_show(w)}")
-                    ctx.fail(rid, real, name, f"[{name}: {cell.label}] differs from the stdlib {name}", witness="; ".join(parts)[:600])
+                    ctx.fail(rid, real, name, f"[{name}: {cell.label}] differs from the stdlib {std}", witness="; ".join(parts)[:600])
         ctx.count(f"decided:{short}", decided)
         if decided < total:
             ctx.note(f"{rid}: {short}: {total - decided} of {total} cell(s) not evaluable over the model")
